@@ -344,11 +344,11 @@ def c_res(o):
 def run(ctx):
     rng = ctx.rng
     cases = corpus()
-    n = ctx.budget(1200, 40000)
+    n = ctx.budget(800, 40000)
     for k in range(n):
         r = k % 10
         cases.append(gen_report(rng, "friendly" if r < 4 else ("wf" if r < 7 else "wild")))
-    ndec = ctx.budget(600, 20000)
+    ndec = ctx.budget(400, 20000)
     for _ in range(ndec):
         cases.append(gen_proto(rng))
     ctx.rule = ("corpus of %d hand-picked reports (the four witnesses of the refutation, edits, page breaks, missing primary, uint32 narrowing, "
